@@ -396,8 +396,16 @@ def members(rng, b, n_rand):
 def oracle(ctx, c, impl, rng, n_rand):
     """list of (check, description) failures of the property on the real result"""
     b = box_of(c)
-    if b is None or not valid_box(c, b):
+    if b is None:
         return []
+    overlap = False
+    if not valid_box(c, b):
+        # bespoke uniform with overlapping endpoint intervals: not every point of the box is a distribution, the constructor
+        # may refuse it; when it answers, the members with a0 <= b0 are judged like any others
+        overlap = (c["kind"] == "uni" and impl[0] == "ok" and b[0][1] <= b[0][2] and b[1][1] <= b[1][2]
+                   and b[0][1] <= b[1][1] and b[0][2] <= b[1][2])
+        if not overlap:
+            return []
     fails = []
     if impl[0] == "err":
         return [("raises", f"valid parameter box {b} raises {impl[1]}")]
@@ -433,7 +441,11 @@ def oracle(ctx, c, impl, rng, n_rand):
         LF, RF, PF = [F(x) for x in impl[1]], [F(x) for x in impl[2]], [F(float(x)) for x in P]
         if point and impl[1] != impl[2]:
             fails.append(("degenerate", f"point parameters {b}: left != right"))
-        for th in members(rng, b, n_rand):
+        mem = members(rng, b, n_rand)
+        if overlap:     # narrow members inside the overlap [b.lo, a.hi]
+            o1, o2 = b[1][1], b[0][2]
+            mem += [(o1, o1), (o2, o2), ((o1 + o2) / 2, (o1 + o2) / 2), (o1, o2), (o1 + (o2 - o1) * 0.4, o1 + (o2 - o1) * 0.6)]
+        for th in mem:
             a0, b0 = F(th[0]), F(th[1])
             if a0 > b0:
                 continue
@@ -698,7 +710,7 @@ def gen_cases(ctx):
         cases.append(c)
     # 5. bespoke uniform
     uni_fixed = [((0, 1), (2, 3)), ((0, 0), (1, 1)), ((0, 1), (1, 3)), ((0, 2), (1, 3)), ((2, 3), (0, 1)), ((0, 3), (1, 2)),
-                 ((1, 1), (1, 1)), ((-3, -2), (-2, 4)), ((0, 5), (5, 5.5)), ((0, 0.001), (1000, 1001))]
+                 ((1, 1), (1, 1)), ((-3, -2), (-2, 4)), ((0, 3), (2, 5)), ((0, 4), (1, 4)), ((-2, 2), (-1, 6)), ((0, 5), (5, 5.5)), ((0, 0.001), (1000, 1001))]
     for a, b in uni_fixed:
         cases.append({"kind": "uni", "pos": [["L", list(a)], ["L", list(b)]], "kw": [], "stream": "uniform-fixed", "mom": True})
     for f1, f2 in itertools.product(range(len(GRID_FORMS)), repeat=2):
